@@ -550,7 +550,8 @@ static unsigned char deref(unsigned pos, ring_t *ring)
 
 static size_t bundle_ring_length(ring_t *ring)
 {
-    unsigned pos = 8+8;//goto first length field
+    const size_t total = ring[0].len+ring[1].len;
+    size_t pos = 8+8;//goto first length field
     uint32_t advance = 0;
     do {
         advance = deref(pos+0, ring) << (8*3) |
@@ -558,10 +559,12 @@ static size_t bundle_ring_length(ring_t *ring)
                   deref(pos+2, ring) << (8*1) |
                   deref(pos+3, ring) << (8*0);
         if(advance)
-            pos += 4+advance;
+            pos += 4+(size_t)advance;
+        if(pos > total)
+            return 0;
     } while(advance);
 
-    return pos <= (ring[0].len+ring[1].len) ? pos : 0;
+    return pos;
 }
 
 //Zero means no full message present
